@@ -12,10 +12,11 @@ pub struct Api {
 
 pub fn main(api: Api) {
     let args: Vec<String> = std::env::args().collect();
-    if args.len() != 4 {
-        eprintln!("usage: vzoo <domain> <in.ndjson> <out.ndjson>");
+    if args.len() < 4 {
+        eprintln!("usage: vzoo <domain> <in.ndjson> <out.ndjson> [key=value..]");
         std::process::exit(2);
     }
+    let kv: Kv = args[4..].iter().filter_map(|a| a.split_once('=').map(|(k, v)| (k.to_string(), v.to_string()))).collect();
     install_panic_hook();
     let mut out = Out::create(&args[3]);
     match args[1].as_str() {
@@ -24,6 +25,7 @@ pub fn main(api: Api) {
             stream(&api, &args[2], &mut out);
         }
         "versions" => versions(&api, &args[2], &mut out),
+        "decode" => decode(&api, &args[2], &mut out, &kv),
         other => {
             eprintln!("unknown domain {}", other);
             std::process::exit(2);
@@ -330,6 +332,87 @@ fn versions(api: &Api, input: &str, out: &mut Out) {
             cc["bits"] = json!(format!("({} bits)", c["bits"].as_array().unwrap().len()));
             out.line(&json!({"line": i, "class": class, "why": why, "case": cc}));
         }
+    }
+    out.line(&json!({"summary": true, "cases": n, "stats": stats}));
+}
+
+/// C04 / C19: arbitrary bits into the real reader. Per case: no panic, no hang (watchdog), bounded allocation, never
+/// Ok after consuming more than the declared bits, accessors callable after a failure. A compact outcome line per
+/// case goes to `outcomes=<file>` so that two builds (feature off / on) can be compared case by case (C19).
+fn decode(api: &Api, input: &str, out: &mut Out, kv: &Kv) {
+    use std::io::Write;
+    let start = kv_u64(kv, "start", 0) as usize;
+    let mut progress = crate::sandbox::Progress::new(kv.get("progress").expect("progress=<file>"), std::time::Duration::from_secs(kv_u64(kv, "limit_s", 3)));
+    let mut outcomes = kv.get("outcomes").map(|p| {
+        std::io::BufWriter::new(std::fs::OpenOptions::new().create(true).append(true).open(p).expect("outcomes file"))
+    });
+    let mut stats: std::collections::BTreeMap<String, u64> = Default::default();
+    let mut shown: std::collections::BTreeMap<String, u64> = Default::default();
+    let mut n = 0u64;
+    for (i, c) in read_lines(input) {
+        if i < start {
+            continue;
+        }
+        n += 1;
+        let ti = usize_of(&c["ti"]);
+        let (bytes, len) = image(&c["bits"]);
+        // variants of the declaration: exact length; whole bytes declared; fewer bits declared than supplied
+        let mut variants: Vec<(Vec<u8>, usize, &str)> = vec![(bytes.clone(), len, "exact")];
+        if len % 8 != 0 {
+            variants.push((bytes.clone(), bytes.len() * 8, "padded"));
+        }
+        if len >= 3 {
+            let mut longer = bytes.clone();
+            longer.extend_from_slice(&[0xFF, 0xFF]);
+            variants.push((longer, len - 2, "declared-shorter"));
+        }
+        for (vi, (bytes, len, vname)) in variants.iter().enumerate() {
+            progress.begin(i);
+            let base = crate::alloc::reset_peak();
+            let r = guarded(|| {
+                let mut r = UperReader::from((&bytes[..], *len));
+                let x = (api.read)(ti, &mut r);
+                // accessors must stay callable after a failed read
+                let rem = r.bits_remaining();
+                (x, rem)
+            });
+            let peak = crate::alloc::peak_since(base);
+            progress.end();
+            let mut problems: Vec<(String, String)> = Vec::new();
+            let outcome = match &r {
+                Err(p) => {
+                    problems.push(("panic".into(), format!("panic: {}", p)));
+                    "panic".to_string()
+                }
+                Ok((Ok(x), rem)) => {
+                    if *rem > *len {
+                        problems.push(("over-read".into(), format!("Ok with {} bits remaining of {} declared", rem, len)));
+                    }
+                    format!("ok {} {}", x, len.wrapping_sub(*rem))
+                }
+                Ok((Err(e), rem)) => format!("err {} {}", per_err_name(e), len.wrapping_sub(*rem)),
+            };
+            let limit = (64usize << 20) + 64 * bytes.len();
+            if peak > limit {
+                problems.push(("alloc".into(), format!("peak allocation {} bytes for an input of {} bytes", peak, bytes.len())));
+            }
+            *stats.entry(outcome.split(' ').next().unwrap().to_string()).or_insert(0) += 1;
+            if let Some(o) = outcomes.as_mut() {
+                let _ = writeln!(o, "{} {} {}", i, vi, outcome);
+            }
+            for (class, why) in problems {
+                *stats.entry(format!("bad:{}", class)).or_insert(0) += 1;
+                let key = format!("{}/{}", class, why.chars().take(60).collect::<String>());
+                let cnt = shown.entry(key).or_insert(0);
+                *cnt += 1;
+                if *cnt <= 3 {
+                    out.line(&json!({"line": i, "class": class, "why": why, "declared": vname, "declared_bits": len, "hex": hex(bytes), "case": c}));
+                }
+            }
+        }
+    }
+    if let Some(o) = outcomes.as_mut() {
+        let _ = o.flush();
     }
     out.line(&json!({"summary": true, "cases": n, "stats": stats}));
 }
